@@ -378,9 +378,64 @@ def wrap_walk(args):
         loop.dispose()
 
 
+def slow_lookup_walk(args):
+    """the address lookups of a cyclic round stay pending for k/2 intervals (k = 1..7), then complete: the round is
+    delivered to both subscribers and the cycle goes on, one round per interval"""
+    sid, major = args
+    from ..vloop import VLoop
+    from ..world import install_log_capture
+    viols = []
+    n = 0
+    for halves in range(1, 8):
+        loop = VLoop().install()
+        cap = install_log_capture()
+        try:
+            class S(svc.SimpleService):
+                service_id = sid
+                version_major = major
+                version_minor = 0
+
+            service = S(instance_id=1)
+            service.transport = FakeTransport(loop, sockname=("192.0.2.1", 30501))
+            eg = svc.SimpleEventgroup(service, id=6, interval=INTERVAL)
+            eg.values[3] = b"\x03"
+            service.register_eventgroup(eg)
+            for e in ("e1", "e2"):
+                service.client_subscribed(sd.EventgroupSubscription(service_id=sid, instance_id=1, major_version=major, id=6, counter=0,
+                                                                    ttl=3, endpoints=frozenset([EP[e]])), SRC)
+            loop.settle()
+            service.transport.sent.clear()
+            loop.gai_hold = 2
+            loop.run_until(INTERVAL + halves * INTERVAL / 2)  # the round of t = INTERVAL is stuck in its lookups
+            loop.gai_hold = 0
+            while loop.gai_pending:
+                loop.release_gai(0)
+            loop.settle()
+            t_rel = loop.time()
+            loop.run_until(t_rel + 3 * INTERVAL + INTERVAL / 4)
+            per = {}
+            for t, it, data, addr in service.transport.sent:
+                per.setdefault(ADDRNAME.get(addr, str(addr)), []).append(t)
+            n += 1
+            for e in ("e1", "e2"):
+                ts = per.get(e, [])
+                if len(ts) < 4 or not any(abs(t - t_rel) < 2 ** -10 for t in ts):
+                    viols.append(("notifications", "cyclic-rounds-stop-after-slow-lookup",
+                                  f"lookups of the cyclic round pending for {halves / 2} intervals: {e} received datagrams at {ts} "
+                                  f"(lookups answered at {t_rel}); expected the stuck round then and one round per interval after it", halves))
+            if cap.records:
+                viols.append(("swallowed-exception", cap.records[0][1], str(cap.records[0])[:300], halves))
+        finally:
+            loop.dispose()
+    return n, viols
+
+
 def check(ctx):
     details, viols = [], []
     samples = core.Samples()
+    nslow, sv = core.pmap(slow_lookup_walk, [(sid_for(ctx.seed), 1 + ctx.seed % 100)], 1)[0]
+    for clause, disc, detail, h in sv:
+        viols.append(core.Violation(ctx.prop, clause, disc, dict(slow_lookup=h, seed=ctx.seed), detail=detail))
     nwalk, wv = core.pmap(wrap_walk, [(sid_for(ctx.seed), 1 + ctx.seed % 100, 32800 + ctx.seed % 7)], 1)[0]
     core.close_pool()
     for clause, disc, detail, rnd in wv:
@@ -407,6 +462,12 @@ def check(ctx):
 
 
 def replay(ctx, body):
+    if "slow_lookup" in body["case"]:
+        seed = body["case"].get("seed", ctx.seed)
+        n, sv = slow_lookup_walk((sid_for(seed), 1 + seed % 100))
+        for v in sv:
+            print("FAILS:", v[:3])
+        return 1 if sv else 0
     if body["case"].get("walk"):
         seed = body["case"].get("seed", ctx.seed)
         n, wv = wrap_walk((sid_for(seed), 1 + seed % 100, 32800 + seed % 7))
